@@ -63,9 +63,20 @@ def unhx(h):
 # ---------------------------------------------------------------------------------------------
 # builds
 
+def _no_as_limit():
+    """build tools (lake/lean reserve tens of GB of address space for thread stacks, cargo/rustc) must not inherit the
+    address-space cap the check puts on its own Python process: under it Lean dies with `failed to create thread`"""
+    import resource
+    try:
+        _, hard = resource.getrlimit(resource.RLIMIT_AS)
+        resource.setrlimit(resource.RLIMIT_AS, (hard, hard))
+    except Exception:
+        pass
+
+
 def sh(cmd, cwd=None, timeout=3600, env=None):
     p = subprocess.run(cmd, cwd=cwd, shell=isinstance(cmd, str), stdout=subprocess.PIPE,
-                       stderr=subprocess.STDOUT, timeout=timeout, env=env or ENV)
+                       stderr=subprocess.STDOUT, timeout=timeout, env=env or ENV, preexec_fn=_no_as_limit)
     return p.returncode, p.stdout.decode("utf-8", errors="replace")
 
 
